@@ -36,16 +36,25 @@ def build(ch):
     mn = 1 + ch.below(2)
     # shared memories (threads proposal: a maximum is mandatory; the host allocates up to it, the page count starts at the minimum)
     shared_mem = ch.below(5) == 0
+    # what the embedder binds to an import may be LARGER than the import's declared minimum (import matching only asks for "at
+    # least"): segments are then bounded by the object actually bound, not by the declaration
+    mem_extra = tab_extra = 0
     if imp_mem:
-        m.imports.append((b'env', b'mem', 'memory', (mn, ch.pick((mn, mn + 2, mn + 5)), True) if shared_mem else
-                          (mn, ch.pick((None, mn, mn + 2)), False)))
+        mdesc = (mn, ch.pick((mn, mn + 2, mn + 5)), True) if shared_mem else (mn, ch.pick((None, mn, mn + 2)), False)
+        m.imports.append((b'env', b'mem', 'memory', mdesc))
+        mem_extra = min(ch.pick((0, 0, 1, 2)), (mdesc[1] - mn) if mdesc[1] is not None else 2)
+        if mem_extra:
+            cls['imported_memory_larger_than_declared'] = 1
     elif has_mem:
         m.memory = (mn, ch.pick((mn, mn + 2, mn + 5)), True) if shared_mem else (mn, ch.pick((None, mn, mn + 2)), False)
     if shared_mem and (imp_mem or has_mem):
         cls['shared_memory'] = 1
     tsize = 8 + ch.below(8)
     if imp_tab:
+        tab_extra = ch.pick((0, 0, 3, 8))
         m.imports.append((b'env', b'tab', 'table', (tsize, None)))
+        if tab_extra:
+            cls['imported_table_larger_than_declared'] = 1
     elif has_tab:
         m.table = (tsize, ch.pick((None, tsize)))
     igt = []
@@ -94,6 +103,10 @@ def build(ch):
                 cls['overlapping_data'] = 1
             else:
                 base = ch.pick((0, 1, 100, 65536 - 64, ch.below(60000)))
+                if mem_extra and ch.below(2):
+                    # beyond the declared minimum, inside the memory actually bound (also straddling the declared end)
+                    base = ch.pick((mn * 65536 - 3, mn * 65536, mn * 65536 + 1 + ch.below(60000), (mn + mem_extra) * 65536 - 24))
+                    cls['segment_beyond_declared_minimum_of_imported_memory'] = 1
             if nig and ch.below(3) == 0:
                 # offset given by imported global 0 (i32): its value is fixed once for the module
                 base = igval.setdefault(0, base)
@@ -156,7 +169,11 @@ def build(ch):
         for s in range(ch.below(4)):
             ln = 1 + ch.below(3)
             base = ch.below(tsize - ln + 1)
-            if nig and ch.below(3) == 0 and (0 not in igval or igval[0] + ln <= tsize):
+            if tab_extra and ch.below(2):
+                base = tsize - 1 + ch.below(tab_extra - ln + 2)
+                cls['segment_beyond_declared_minimum_of_imported_table'] = 1
+                off = ('i32.const', base)
+            elif nig and ch.below(3) == 0 and (0 not in igval or igval[0] + ln <= tsize):
                 base = igval.setdefault(0, base)
                 if base + ln > tsize:
                     continue
@@ -175,7 +192,7 @@ def build(ch):
     # data offsets through imported global 0 must stay in bounds of the memory
     if 0 in igval and has_mem:
         mx = max([len(d) for md, o, d in m.datas if md == 'active' and o[0] == 'global.get'] or [0])
-        if igval[0] + mx > mn * 65536:
+        if igval[0] + mx > (mn + mem_extra) * 65536:
             igval[0] = 0
             # elem segments through the same global: recompute map conservatively (offset 0)
             tmap = {}
@@ -187,7 +204,7 @@ def build(ch):
     if ch.below(2):
         body = []
         if has_mem and regions:
-            body += [('i32.const', min(regions[0], mn * 65536 - 4)), ('i32.load', 0, 0), ('call', 0)]
+            body += [('i32.const', min(regions[0], (mn + mem_extra) * 65536 - 4)), ('i32.load', 0, 0), ('call', 0)]
         for gi in range(nig + len(m.globals)):
             if m.global_type(gi)[0] == I32:
                 body += [('global.get', gi), ('call', 0)]
@@ -213,7 +230,8 @@ def build(ch):
             m.exports.insert(ch.below(len(m.exports) + 1), (gname, kd, idx))
             cls['global_or_table_export_between_others'] = 1
     return m, acc, {'igval': igval, 'tmap': tmap, 'cls': cls, 'regions': regions, 'has_mem': has_mem, 'has_tab': has_tab,
-                    'imp_mem': imp_mem, 'imp_tab': imp_tab, 'mn': mn, 'tsize': tsize, 'igt': igt}
+                    'imp_mem': imp_mem, 'imp_tab': imp_tab, 'mn': mn + mem_extra, 'tsize': tsize, 'igt': igt,
+                    'mem_extra': mem_extra, 'tab_extra': tab_extra}
 
 
 def observe(script, k, m, acc, info):
@@ -252,9 +270,9 @@ def make_inst(ch, params):
                 script.append(('bind', 1, gi, binds[(0, gi)]))
                 continue
             if kind == 'memory':
-                script.append(('newmem', k, desc[0], desc[1], len(desc) > 2 and bool(desc[2])))
+                script.append(('newmem', k, desc[0] + info['mem_extra'], desc[1], len(desc) > 2 and bool(desc[2])))
             elif kind == 'table':
-                script.append(('newtab', k, desc[0], desc[1]))
+                script.append(('newtab', k, desc[0] + info['tab_extra'], desc[1]))
             else:
                 gidx = len([x for x in m.imports[:gi] if x[2] == 'global'])
                 v = info['igval'].get(gidx)
